@@ -156,6 +156,7 @@ type Graph struct {
 	rpo   []int
 
 	factMemo map[int][]Fact
+	phiBr    int
 }
 
 func NewGraph(f *ssa.Function, nr *NoRet) *Graph {
@@ -308,7 +309,29 @@ func (g *Graph) Dominates(a, b ssa.Instruction) bool {
 	if a.Block() == b.Block() {
 		return IndexIn(a) < IndexIn(b)
 	}
-	return g.DomBlock(a.Block().Index, b.Block().Index)
+	if g.DomBlock(a.Block().Index, b.Block().Index) {
+		return true
+	}
+	// a may still lie on every feasible path to b when the paths that avoid it
+	// run through a branch on a phi that they decide the other way
+	if !g.hasPhiBranch() || !g.Live(a) || !g.Live(b) {
+		return false
+	}
+	hit, _ := g.ReachableWithout(Point{}, func(i ssa.Instruction) bool { return i == b }, func(i ssa.Instruction) bool { return i == a })
+	return hit == nil
+}
+
+func (g *Graph) hasPhiBranch() bool {
+	if g.phiBr == 0 {
+		g.phiBr = -1
+		for b := range g.Succs {
+			if g.PhiBranch(b) {
+				g.phiBr = 1
+				break
+			}
+		}
+	}
+	return g.phiBr > 0
 }
 
 // Fact is a branch condition known to have a value at a program point.
@@ -316,6 +339,11 @@ type Fact struct {
 	Cond ssa.Value
 	Val  bool
 	If   *ssa.If
+	// NilOf, when set, makes this a derived fact about another value: NilOf is
+	// nil (IsNil) or non-nil at this point. Cond/Val then repeat the fact it was
+	// derived from (a nil test of a phi whose only compatible edge carries NilOf).
+	NilOf ssa.Value
+	IsNil bool
 }
 
 // FactsAt returns the branch conditions that hold whenever block b executes:
@@ -370,14 +398,17 @@ func (g *Graph) edgeFact(d, c int) (Fact, bool) {
 		}
 		cond, val = u.X, !val
 	}
-	return Fact{cond, val, ifi}, true
+	return Fact{Cond: cond, Val: val, If: ifi}, true
 }
+
+// EdgeFact is the condition of the branch p -> s itself, if p ends in a two-way branch.
+func (g *Graph) EdgeFact(p, s int) (Fact, bool) { return g.edgeFact(p, s) }
 
 // EdgeFacts returns the facts that hold when control flows from block p to its successor s.
 func (g *Graph) EdgeFacts(p, s int) []Fact {
 	out := g.FactsAt(p)
 	if f, ok := g.edgeFact(p, s); ok {
-		out = append(out, f)
+		out = g.unfold(append(out, f), map[int]bool{p: true})
 	}
 	return out
 }
@@ -469,12 +500,28 @@ func (g *Graph) factsAt(b int, busy map[int]bool) []Fact {
 	}
 	busy[b] = true
 	defer delete(busy, b)
+	return g.unfold(out, busy)
+}
+
+// unfold adds to a list of facts everything that follows from its facts about phis.
+func (g *Graph) unfold(out []Fact, busy map[int]bool) []Fact {
 	have := map[[2]any]bool{}
 	for _, f := range out {
 		have[[2]any{f.Cond, f.Val}] = true
 	}
 	for i := 0; i < len(out) && i < 64; i++ {
 		phi, want, ok := phiTest(out[i])
+		if out[i].NilOf != nil {
+			// a derived nil fact about a value that is itself a phi unfolds further
+			ok = false
+			if q, isPhi := out[i].NilOf.(*ssa.Phi); isPhi {
+				phi, ok = q, true
+				want = clsNonNil
+				if out[i].IsNil {
+					want = clsNil
+				}
+			}
+		}
 		if !ok {
 			continue
 		}
@@ -504,7 +551,7 @@ func (g *Graph) factsAt(b int, busy map[int]bool) []Fact {
 			var keep []Fact
 			for _, a := range common {
 				for _, c := range pf {
-					if a.Cond == c.Cond && a.Val == c.Val {
+					if a.Cond == c.Cond && a.Val == c.Val && a.NilOf == c.NilOf && a.IsNil == c.IsNil {
 						keep = append(keep, a)
 						break
 					}
@@ -523,17 +570,80 @@ func (g *Graph) factsAt(b int, busy map[int]bool) []Fact {
 					}
 					cond, val = u.X, !val
 				}
-				common = append(common, Fact{cond, val, out[i].If})
+				common = append(common, Fact{Cond: cond, Val: val, If: out[i].If})
 			}
 		}
 		for _, f := range common {
+			if f.NilOf != nil {
+				out = append(out, f)
+				continue
+			}
 			if !have[[2]any{f.Cond, f.Val}] {
 				have[[2]any{f.Cond, f.Val}] = true
 				out = append(out, f)
 			}
 		}
+		if nCompat == 1 && (want == clsNil || want == clsNonNil) {
+			if _, isConst := only.(*ssa.Const); !isConst && !have[[2]any{only, want == clsNil}] {
+				have[[2]any{only, want == clsNil}] = true
+				out = append(out, Fact{Cond: out[i].Cond, Val: out[i].Val, If: out[i].If, NilOf: only, IsNil: want == clsNil})
+			}
+		}
 	}
 	return out
+}
+
+// Resolve follows v through phis whose incoming edge is fixed at instruction
+// at: when the facts that hold at `at` say that some phi of the same block is
+// nil, non-nil, true or false, only the edges compatible with that remain, and
+// if exactly one remains the phi has that edge's value ("item, ok := next();
+// if !ok { return }; use(item)" after next was merged into the caller).
+func (g *Graph) Resolve(v ssa.Value, at ssa.Instruction) ssa.Value {
+	for depth := 0; depth < 8; depth++ {
+		phi, ok := v.(*ssa.Phi)
+		if !ok {
+			return v
+		}
+		blk := phi.Block()
+		feasible := make([]bool, len(phi.Edges))
+		any := false
+		for k := range phi.Edges {
+			pred := blk.Preds[k].Index
+			feasible[k] = g.Reach[pred] && g.Cut[pred] < 0 && containsInt(g.Succs[pred], blk.Index)
+		}
+		for _, f := range g.FactsAtInstr(at) {
+			q, want, ok := phiTest(f)
+			if !ok || q.Block() != blk {
+				continue
+			}
+			for k, e := range q.Edges {
+				if !feasible[k] {
+					continue
+				}
+				pred := blk.Preds[k].Index
+				if cls := classify(e, g.EdgeFacts(pred, blk.Index)); cls != clsUnknown && cls != want {
+					feasible[k] = false
+					any = true
+				}
+			}
+		}
+		if !any {
+			return v
+		}
+		var only ssa.Value
+		n := 0
+		for k, e := range phi.Edges {
+			if feasible[k] {
+				only = e
+				n++
+			}
+		}
+		if n != 1 {
+			return v
+		}
+		v = only
+	}
+	return v
 }
 
 func containsInt(s []int, x int) bool {
@@ -869,6 +979,12 @@ func KnownNil(facts []Fact, x ssa.Value, want bool) bool {
 	}
 	rx := ResolveLoad(x)
 	for _, f := range facts {
+		if f.NilOf != nil {
+			if f.IsNil == want && (f.NilOf == x || ResolveLoad(f.NilOf) == rx) {
+				return true
+			}
+			continue
+		}
 		if y, eq, ok := NilCheck(f.Cond); ok && (eq == f.Val) == want {
 			if y == x || ResolveLoad(y) == rx {
 				return true
